@@ -154,6 +154,101 @@ func runC06(res *lib.Result, tier string, seed int64, args []string) error {
 		}
 		sess.Close()
 	}
+	if err := c06Globals(res, tier, root); err != nil {
+		return err
+	}
+	return nil
+}
+
+// second family: a global defined at the top of one file and re-assigned later (inside functions,
+// do-blocks, at top level) and read in that file and in another one: the references of ANY of its
+// occurrences are ALL of its occurrences (the definition dominates, see C09)
+func c06Globals(res *lib.Result, tier string, root *lib.Rng) error {
+	n := 25
+	if tier == "thorough" {
+		n = 1200
+	}
+	for wi := 0; wi < n; wi++ {
+		r := root.Fork(uint64(6000000 + wi))
+		ng := 1 + r.Intn(3)
+		var a, b []string
+		for g := 0; g < ng; g++ {
+			a = append(a, fmt.Sprintf("gv%d = %d", g, g))
+		}
+		a = append(a, "local total = 0")
+		for k := 0; k < 3+r.Intn(5); k++ {
+			g := r.Intn(ng)
+			switch r.Intn(6) {
+			case 0:
+				a = append(a, fmt.Sprintf("function bump%d()", k), fmt.Sprintf("  gv%d = gv%d + 1", g, g), "  total = total + 1", "end")
+			case 1:
+				a = append(a, "do", fmt.Sprintf("  gv%d = total", g), "end")
+			case 2:
+				a = append(a, fmt.Sprintf("gv%d = %d", g, 10+k))
+			case 3:
+				a = append(a, fmt.Sprintf("print(gv%d, total)", g))
+			case 4:
+				a = append(a, fmt.Sprintf("local function w%d(p)", k), fmt.Sprintf("  if p then gv%d = p end", g), fmt.Sprintf("  return gv%d", g), "end")
+			default:
+				a = append(a, fmt.Sprintf("total = total + gv%d", g))
+			}
+		}
+		for g := 0; g < ng; g++ {
+			if r.Chance(2, 3) {
+				b = append(b, fmt.Sprintf("print(gv%d)", g))
+			}
+		}
+		b = append(b, "print(1)")
+		files := map[string]string{"a.lua": strings.Join(a, "\n") + "\n", "b.lua": strings.Join(b, "\n") + "\n"}
+		dir := lib.ScratchDir(fmt.Sprintf("c06g%d", wi))
+		if err := lib.WriteWorkspace(dir, files); err != nil {
+			return err
+		}
+		sess, err := lib.StartSession(dir, lib.AllChecksOptions())
+		if err != nil {
+			os.RemoveAll(dir)
+			return err
+		}
+		sess.DidOpen("a.lua", files["a.lua"])
+		sess.DidOpen("b.lua", files["b.lua"])
+		sess.Sync()
+		all := append(identTokens("a.lua", files["a.lua"]), identTokens("b.lua", files["b.lua"])...)
+		world := "-- a.lua\n" + files["a.lua"] + "-- b.lua\n" + files["b.lua"]
+		for g := 0; g < ng; g++ {
+			name := fmt.Sprintf("gv%d", g)
+			var want []string
+			for _, p := range all {
+				if p.name == name {
+					want = append(want, fmt.Sprintf("%s:%d:%d", p.file, p.line, p.col))
+				}
+			}
+			sort.Strings(want)
+			for _, p := range all {
+				if p.name != name {
+					continue
+				}
+				caseText := fmt.Sprintf("references at %s %d:%d (%s) in\n%s", p.file, p.line, p.col, name, world)
+				lib.Breadcrumb("C06 " + caseText)
+				locs, err := sess.References(p.file, p.line, p.col, true)
+				if err != nil {
+					res.AddViolation("crash-or-timeout", err.Error(), caseText, false)
+					continue
+				}
+				var got []string
+				for _, l := range locs {
+					got = append(got, fmt.Sprintf("%s:%d:%d", sess.Rel(l.URI), l.Range.Start.Line, l.Range.Start.Character))
+				}
+				sort.Strings(got)
+				res.Count(fmt.Sprintf("g%d/%s/%s:%d:%d", wi, name, p.file, p.line, p.col), len(want) >= 3)
+				res.Dist("global-family")
+				if strings.Join(got, " ") != strings.Join(want, " ") {
+					res.AddViolation("impl-vs-spec", fmt.Sprintf("references of the global %s: [%s], its occurrences are [%s]", name, strings.Join(got, " "), strings.Join(want, " ")), caseText, false)
+				}
+			}
+		}
+		sess.Close()
+		os.RemoveAll(dir)
+	}
 	return nil
 }
 
